@@ -593,3 +593,39 @@ Proof.
 Qed.
 
 End Rounds.
+
+(* ---- a validator constructed with another method's reason (seeded defect C05-2: one shared
+   constructor hard-coding Underutilized) lets a command through that exceeds the budget of the
+   method's own reason ---- *)
+Section ForeignReason.
+Let hit0 (_ : unit) (_ : Z) : Prop := False.
+Let next0 (_ : unit) (_ : Z) : option Z := None.
+
+Definition fr_budgets : list (budget unit) :=
+  [mkBudget (Some [Empty]) (NInt 1) SNil None; mkBudget (Some [Underutilized]) (NInt 3) SNil None].
+Definition fr_sys : sys unit :=
+  mkSys 0 [mkPool 1 fr_budgets false 0 None]
+        [mkNode 1 1 true true false true false false; mkNode 2 1 true true false true false false;
+         mkNode 3 1 true true false true false false; mkNode 4 1 true true false true false false] [].
+Definition fr_cands : list cand := [mkCand 1 1 true false true; mkCand 2 1 true false true].
+
+Lemma foreign_reason_refuted_l :
+  let sel := validate_under unit next0 Underutilized fr_sys MEmptiness fr_cands fr_cands in
+  map c_node sel = [1; 2] /\ ~ round_holds unit hit0 fr_sys Empty sel.
+Proof.
+  split; [vm_compute; reflexivity|].
+  intros H. specialize (H 1).
+  change (find_pool (s_pools fr_sys) 1) with (Some (mkPool 1 fr_budgets false 0 (@None Z))) in H.
+  cbv beta iota in H. unfold Spec.round_ok in H.
+  destruct H as [H|(_ & _ & H)].
+  - vm_compute in H. discriminate.
+  - specialize (H (mkBudget (Some [Empty]) (NInt 1) SNil None) (or_introl eq_refl)).
+    assert (Ha : applies_spec unit Empty (mkBudget (Some [Empty]) (NInt 1) SNil None)) by (simpl; left; reflexivity).
+    specialize (H Ha I). vm_compute in H. apply H. reflexivity.
+Qed.
+
+(* with its own reason the same validator trims the command to the Empty budget *)
+Lemma own_reason_example_l :
+  map c_node (validate unit next0 fr_sys MEmptiness fr_cands fr_cands) = [1].
+Proof. vm_compute. reflexivity. Qed.
+End ForeignReason.
